@@ -990,3 +990,17 @@ fire("c08-vested-alternative-ignores-free", "C08", ["C08.vested"],
      (VESTGO, "	startTime := lockEnd\n	if lockEnd.Before(ctx.BlockTime()) {\n		startTime = ctx.BlockTime()\n	}\n\n	_, err := k.newContinuousVestingAccount(", "	startTime := lockEnd\n	if lockEnd.Before(ctx.BlockTime()) {\n		startTime = ctx.BlockTime()\n		originalVesting = sdk.NewCoins(coinToSend)\n	}\n\n	_, err := k.newContinuousVestingAccount("))
 fire("c17-split-success-return-before-lookup", "C17", ["C17.split"],
      (SPLIT, "	vAcc, found := k.GetVestingAccountTrace(ctx, from.String())", "	if amount.IsZero() {\n		return nil\n	}\n	vAcc, found := k.GetVestingAccountTrace(ctx, from.String())"))
+# ---------------- round-8 rules ----------------
+fire("c02-params-zero-multiplier-defaults-to-one", "C02", ["C02.params"],
+     (MINTYPES, "	amountToMint := sdk.ZeroDec()\n	epochAmount := sdk.NewDecFromInt(m.Amount)\n	for i := int64(0); i < numOfPassedEpochs; i++ {\n		if i > 0 {\n			epochAmount = epochAmount.Mul(m.AmountMultiplier)",
+      "	amountToMint := sdk.ZeroDec()\n	epochAmount := sdk.NewDecFromInt(m.Amount)\n	multiplier := m.AmountMultiplier\n	if multiplier.IsZero() {\n		multiplier = sdk.OneDec()\n	}\n	for i := int64(0); i < numOfPassedEpochs; i++ {\n		if i > 0 {\n			epochAmount = epochAmount.Mul(multiplier)"))
+silent("c02-params-multiplier-in-a-local", "C02",
+       (MINTYPES, "	amountToMint := sdk.ZeroDec()\n	epochAmount := sdk.NewDecFromInt(m.Amount)\n	for i := int64(0); i < numOfPassedEpochs; i++ {\n		if i > 0 {\n			epochAmount = epochAmount.Mul(m.AmountMultiplier)",
+        "	amountToMint := sdk.ZeroDec()\n	epochAmount := sdk.NewDecFromInt(m.Amount)\n	multiplier := m.AmountMultiplier\n	for i := int64(0); i < numOfPassedEpochs; i++ {\n		if i > 0 {\n			epochAmount = epochAmount.Mul(multiplier)"))
+fire("c12-verbatim-count-from-number-of-traces", "C12", ["C12.verbatim"],
+     (GENV, "	k.SetVestingAccountTraceCount(ctx, genState.VestingAccountTraceCount)", "	k.SetVestingAccountTraceCount(ctx, uint64(len(genState.VestingAccountTraces)))"))
+ENDT_OLD = "	if sequenceId == lastPos && minter.EndTime != nil {\n		return fmt.Errorf(\"last minter cannot have EndTime set, but is set to %s\", minter.EndTime)\n	}\n	if sequenceId < lastPos && minter.EndTime == nil {"
+fire("c13-endtime-zero-time-is-unset", "C13", ["C13.endtime"],
+     (MINTYPES, ENDT_OLD, "	if sequenceId == lastPos && minter.EndTime != nil && !minter.EndTime.IsZero() {\n		return fmt.Errorf(\"last minter cannot have EndTime set, but is set to %s\", minter.EndTime)\n	}\n	if sequenceId < lastPos && minter.EndTime == nil {"))
+silent("c13-endtime-conditions-reordered", "C13",
+       (MINTYPES, ENDT_OLD, "	hasEnd := minter.EndTime != nil\n	if hasEnd && sequenceId == lastPos {\n		return fmt.Errorf(\"last minter cannot have EndTime set, but is set to %s\", minter.EndTime)\n	}\n	if !hasEnd && lastPos > sequenceId {"))
